@@ -131,6 +131,37 @@ def webob():
     return Request, Response
 
 
+# configurations ("knobs") the covered code reads: the class (subclass overriding default_charset / the plain
+# BaseRequest without the ad-hoc attribute mix-in), default_charset set on the instance after construction
+RESP_CFGS = ["default", "sub-latin1", "sub-none", "inst-latin1"]
+REQ_CFGS = ["default", "base"]
+_CLASSES = {}
+
+
+def klass(side, cfg):
+    Request, Response = webob()
+    if not _CLASSES:
+        from webob.request import BaseRequest
+        _CLASSES["sub-latin1"] = type("Latin1Response", (Response,), {"default_charset": "latin-1"})
+        _CLASSES["sub-none"] = type("NoCharsetResponse", (Response,), {"default_charset": None})
+        _CLASSES["base"] = BaseRequest
+    if side == "resp":
+        return _CLASSES.get(cfg, Response)
+    return _CLASSES["base"] if cfg == "base" else Request
+
+
+def new_obj(side, cfg=None, **kw):
+    cls = klass(side, cfg)
+    r = cls(**kw) if side == "resp" else cls.blank("/", **kw)
+    if side == "resp" and cfg == "inst-latin1":
+        r.default_charset = "latin-1"
+    return r
+
+
+def default_charset_of(cfg):
+    return {"sub-latin1": "latin-1", "inst-latin1": "latin-1", "sub-none": ""}.get(cfg, "UTF-8")
+
+
 # ----------------------------------------------------------------------------------------------
 # plumbing: objects, raw header access, JSON value codec
 # ----------------------------------------------------------------------------------------------
@@ -138,13 +169,12 @@ def table(side):
     return RESP if side == "resp" else REQ
 
 
-def mk(side, key, text, lines=None):
-    Request, Response = webob()
+def mk(side, key, text, lines=None, cfg=None):
     if side == "resp":
-        r = Response()
+        r = new_obj("resp", cfg)
         r.headerlist = ([] if text is None else [(key, text)]) if lines is None else [tuple(p) for p in lines]
     else:
-        r = Request.blank("/")
+        r = new_obj("req", cfg)
         if text is None:
             r.environ.pop(key, None)
         else:
@@ -290,7 +320,7 @@ def classify_total(kind, text, exc, msg):
 def o_total(case):
     side, attr, text = case["side"], case["attr"], case["text"]
     key, kind = table(side)[attr]
-    r = mk(side, key, text)
+    r = mk(side, key, text, cfg=case.get("cfg"))
     try:
         with NowHook():
             v = getattr(r, attr)
@@ -547,15 +577,23 @@ def o_rt(case):
     value = dec(case["value"])
     init = case.get("init")
     lines = case.get("lines") if side == "resp" else None
-    r = mk(side, key, init, lines)
+    cfg = case.get("cfg")
+    r = mk(side, key, init, lines, cfg)
     family = side == "resp" and attr in HEADER_GETTER_FAMILY
     others = None if lines is None else [list(kv) for kv in lines if kv[0].lower() != key.lower()]
     tag = "%s.%s" % (side, attr)
     if lines is not None:
         tag += " (header list starting as %r)" % (lines,)
+    if cfg:
+        tag += " [%s]" % cfg
     with NowHook() as now:
         try:
-            setattr(r, attr, value)
+            if case.get("via") == "ctor":
+                # the same assignment made through the constructor keyword (Response(**kw) / Request.blank(path, **kw))
+                tag += " given as constructor keyword"
+                r = new_obj(side, cfg, **{attr: value})
+            else:
+                setattr(r, attr, value)
         except Exception as e:  # noqa
             return ("roundtrip:%s:set-raises-%s" % (kind, type(e).__name__),
                     "%s = %r raises %s: %s" % (tag, value, type(e).__name__, str(e)[:100]))
@@ -974,6 +1012,13 @@ def o_cc(case):
                         return f
                 if (v == "" or v == {}) and hdr not in gone:
                     return ("cc-empty-header:%s" % side, "%s: cache_control = %r leaves %s: %r" % (where, op[1], key, hdr))
+            elif t == "assign_self":
+                cc = r.cache_control
+                p0 = cc_view(cc.properties)
+                r.cache_control = cc if op[1] == "same" else cc.properties
+                if cc_view(r.cache_control.properties) != p0:
+                    return ("self-assign:cache_control:value-lost", "%s: the directives %r became %r"
+                            % (where, p0, cc_view(r.cache_control.properties)))
             elif t == "del":
                 del r.cache_control
                 hdr = cc_header(side, r)
@@ -1017,7 +1062,9 @@ CC_TEXTS = [("max-age=5", {"max-age": "5"}), ("public, max-age=5", {"public": No
 
 def rand_cc_op(rng, side):
     t = rng.choice(["get", "setp", "setp", "setp", "delp", "setp_held", "delp_held", "pset", "pdel", "pclear", "pupdate", "ppop",
-                    "psetdefault", "hset", "hset", "hdel", "assign", "assign", "del"])
+                    "psetdefault", "hset", "hset", "hdel", "assign", "assign", "del", "assign_self"])
+    if t == "assign_self":
+        return [t, rng.choice(["same", "props"])]
     attrs = sorted(CC_ATTRS)
     if t in ("setp", "setp_held"):
         a = rng.choice(attrs)
@@ -1082,13 +1129,12 @@ def store_of(side, r):
     return [r.environ.get(k, ABSENT) for k in WATCH]
 
 
-def fresh_like(side, store):
-    Request, Response = webob()
+def fresh_like(side, store, cfg=None):
     if side == "resp":
-        r = Response()
+        r = new_obj("resp", cfg)
         r.headerlist = [tuple(p) for p in store]
         return r
-    r = Request.blank("/")
+    r = new_obj("req", cfg)
     for k, v in zip(WATCH, store):
         if v == ABSENT:
             r.environ.pop(k, None)
@@ -1125,11 +1171,13 @@ def o_hist(case):
     side = case["side"]
     tab = table(side)
     with NowHook():
-        r = fresh_like(side, case["init"])
+        cfg = case.get("cfg")
+        r = fresh_like(side, case["init"], cfg)
+        view = r.headers if case.get("view") else None        # the headers view exists before the attributes are used
         sticky = None
         for i, o in enumerate(case["ops"]):
             before = store_of(side, r)
-            twin = fresh_like(side, before)
+            twin = fresh_like(side, before, cfg)
             res = apply_hist_op(side, r, o)
             res2 = apply_hist_op(side, twin, o)
             after, after2 = store_of(side, r), store_of(side, twin)
@@ -1145,6 +1193,9 @@ def o_hist(case):
                         return ("stateful:req:charset:not-fixed-at-first-use",
                                 "%s gives %r, but this wrapper's first read gave %r" % (where, res, sticky[0]))
                     res2 = res
+            if view is not None and side == "resp" and [list(kv) for kv in view.items()] != store_of(side, r):
+                return ("stateful:resp:headers-view-out-of-sync", "%s: a resp.headers view taken earlier shows %r, headerlist is %r"
+                        % (where, [list(kv) for kv in view.items()], store_of(side, r)))
             if res != res2:
                 return ("stateful:%s:%s:answer-differs" % (side, o[1] if o[0] != "raw" and len(o) > 1 else "raw"), "%s gives %r, a fresh object over the same %s gives %r"
                         % (where, res, "header list" if side == "resp" else "environ", res2))
@@ -1264,7 +1315,8 @@ def gen_mixed_history(rng, side, length):
             ops.append(["raw", case_variants(rng, key) if side == "resp" else key, rng.choice([t for t in texts if len(t) < 200] or ["x"])])
         elif a != "server_port":
             ops.append(["rawdel", key])
-    return {"o": "hist", "side": side, "init": init, "ops": ops}
+    return {"o": "hist", "side": side, "init": init, "ops": ops, "cfg": rng.choice(RESP_CFGS if side == "resp" else REQ_CFGS),
+            "view": rng.random() < 0.5}
 
 
 def perm_worker():
@@ -1301,7 +1353,7 @@ def o_perm(case):
 
 def stateful_sweep(ctx):
     rng = ctx.sub_rng("oracle-stateful")
-    n = ctx.scale(2500, 30000)
+    n = ctx.scale(1500, 30000)
     for side in ("resp", "req"):
         for _ in range(n):
             case = gen_mixed_history(rng, side, rng.randrange(8, ctx.scale(40, 80)))
@@ -1343,10 +1395,205 @@ def stateful_sweep(ctx):
     m = nitems
     ctx.oracle_count("stateful-order", m, m)
 
+
+# ----------------------------------------------------------------------------------------------
+# oracle 6: argument shapes and value domains outside the model
+# ----------------------------------------------------------------------------------------------
+def o_self(case):
+    """x.attr = x.attr (the identical object the getter returned) keeps the value"""
+    side, attr = case["side"], case["attr"]
+    key, kind = table(side)[attr]
+    with NowHook():
+        r = mk(side, key, case.get("init"), cfg=case.get("cfg"))
+        try:
+            setattr(r, attr, dec(case["value"]))
+            first = getattr(r, attr)
+            obs1 = obs_value(kind, first)
+            how = case.get("how", "same")
+            if how == "props" and kind == "cache_control":
+                r.cache_control = r.cache_control.properties
+            elif how == "equal" and kind == "cache_control":
+                r.cache_control = first.copy()
+            else:
+                setattr(r, attr, first)
+            obs2 = obs_value(kind, getattr(r, attr))
+        except Exception as e:  # noqa
+            return ("self-assign:%s:raises-%s" % (kind, type(e).__name__), "%s.%s = %s.%s raises %s: %s"
+                    % (side, attr, side, attr, type(e).__name__, str(e)[:80]))
+    if obs1 != obs2:
+        return ("self-assign:%s:value-lost" % kind, "%s.%s reads %r; after %s.%s = <that %s> it reads %r (header %r)"
+                % (side, attr, obs1, side, attr, {"same": "very object", "props": "object's .properties", "equal": "object's copy()"}[case.get("how", "same")],
+                   obs2, raw(side, r, key)))
+    return None
+
+
+ODD_VALUES = [{"t": "list", "v": []}, {"t": "tuple", "v": []}, {"t": "str", "v": ""}, {"t": "dict", "v": {}}, {"t": "bytes", "v": "GET"},
+              {"t": "bytes", "v": "Mon, 01 Jan 2001 00:00:00 GMT"}, {"t": "bool", "v": True}, {"t": "float", "v": 1.5}, {"t": "int", "v": -3},
+              {"t": "bigint", "v": 5000}, {"t": "tuple", "v": [None, 5]}, {"t": "tuple", "v": [0, None, None]}, {"t": "list", "v": [1, "a"]},
+              {"t": "str", "v": "€ ١ x"}, {"t": "str", "v": "a\x00b"}, {"t": "str", "v": "x\ny"}, {"t": "gen", "v": ["GET", "PUT"]},
+              {"t": "iter", "v": ["a"]}, {"t": "auth_list", "v": ["Digest", {"realm": "x"}]}, {"t": "tuple", "v": ["Digest", "x", "y"]},
+              {"t": "dt", "v": [1, 1, 1, 0, 0, 0, 0], "tz": None}, {"t": "td", "v": -10 ** 12}, {"t": "dict", "v": {"max-age": "x\ny"}}]
+ALLOWED_REFUSALS = ("ValueError", "TypeError", "AssertionError", "AttributeError", "OverflowError", "DeprecationWarning", "KeyError")
+
+
+def dec_odd(v):
+    t, x = v["t"], v.get("v")
+    if t == "bytes":
+        return x.encode("latin-1")
+    if t == "bool":
+        return x
+    if t == "bigint":
+        return 10 ** x
+    if t == "gen":
+        return (e for e in x)
+    if t == "iter":
+        return iter(list(x))
+    if t == "auth_list":
+        return [x[0], dict(x[1])]
+    return dec(v)
+
+
+def short(v):
+    try:
+        t = repr(v)
+    except Exception:  # noqa  (e.g. an int beyond the str() digit limit)
+        t = "<%s value>" % v.get("t", "?") if isinstance(v, dict) else "<unprintable>"
+    return t if len(t) < 120 else t[:100] + "..."
+
+
+def o_shape(case):
+    """a value of an unusual shape / outside the modelled domain: either refused with one of the documented exception
+    classes and nothing half-written, or accepted and then the views stay coherent: one CR/LF-free line (Response
+    header_getter family), and reading does not raise"""
+    side, attr = case["side"], case["attr"]
+    key, kind = table(side)[attr]
+    with NowHook():
+        r = mk(side, key, case.get("init"), cfg=case.get("cfg"))
+        before = raw(side, r, key)
+        value = dec_odd(case["value"])
+        try:
+            setattr(r, attr, value)
+        except Exception as e:  # noqa
+            if type(e).__name__ not in ALLOWED_REFUSALS:
+                return ("shape:%s:raises-%s" % (kind, type(e).__name__), "%s.%s = %r raises %s: %s"
+                        % (side, attr, short(case["value"]), type(e).__name__, str(e)[:80]))
+            now_ = raw(side, r, key)
+            if now_ not in (before, ABSENT) and kind not in ("cache_control",):
+                return ("shape:%s:refused-but-written" % kind, "%s.%s = %r was refused (%s) but %s changed from %r to %r"
+                        % (side, attr, short(case["value"]), type(e).__name__, key, before, now_))
+            return None
+        hdr = raw(side, r, key)
+        if side == "resp" and attr in HEADER_GETTER_FAMILY:
+            if count_lines(r, key) > 1:
+                return ("single-header:%s:duplicate-lines-survive" % attr, "resp.%s = %r leaves %r" % (attr, short(case["value"]), hdr))
+            if isinstance(hdr, str) and hdr != ABSENT and ("\n" in hdr or "\r" in hdr):
+                return ("crlf:%s:accepted" % kind, "resp.%s = %r stored %r" % (attr, short(case["value"]), hdr))
+        if hdr != ABSENT and not isinstance(hdr, (str, list)):
+            if side == "resp":
+                return ("shape:%s:non-text-stored" % kind, "resp.%s = %s was accepted and stored the non-text object %r under %s"
+                        % (attr, short(case["value"]), hdr, key))
+            return None        # a non-text object was put into the environ: no header text to speak about
+        try:
+            got = getattr(r, attr)
+            if kind == "cache_control":
+                str(got)
+        except Exception as e:  # noqa
+            return ("shape:%s:get-raises-%s" % (kind, type(e).__name__), "%s.%s = %r was accepted (stored %r) but reading raises %s: %s"
+                    % (side, attr, short(case["value"]), hdr, type(e).__name__, str(e)[:80]))
+    return None
+
+
+def run_case_sub(case):
+    """run one case in a fresh process configured by the case: TZ, sys.set_int_max_str_digits"""
+    env = dict(os.environ)
+    if case.get("tz"):
+        env["TZ"] = case["tz"]
+    pre = "import sys, json; "
+    if case.get("maxdigits") is not None:
+        pre += "sys.set_int_max_str_digits(%d); " % case["maxdigits"]
+    inner = dict(case)
+    inner.pop("maxdigits", None)
+    inner.pop("tz", None)
+    p = subprocess.run([sys.executable, "-B", "-c", pre + "from harness.props import c12; "
+                        "r = [c12.run_case(c) for c in json.load(sys.stdin)]; print(json.dumps(r))"],
+                       input=json.dumps(inner["batch"] if "batch" in inner else [inner]), capture_output=True, text=True, env=env, cwd=fw.ROOT)
+    if p.returncode != 0:
+        return [("sub-worker", "worker failed: " + p.stderr[-300:])]
+    return [tuple(r) if r else None for r in json.loads(p.stdout.strip().split("\n")[-1])]
+
+
+def shapes_sweep(ctx):
+    rng = ctx.sub_rng("oracle-shapes")
+    n = 0
+    # x.attr = x.attr for every settable attribute, all configurations
+    for side in ("resp", "req"):
+        for attr, (key, kind) in sorted(table(side).items()):
+            if (side, attr) in GET_ONLY or attr == "server_port":
+                continue
+            if kind in ("date", "date_delta", "if_range"):
+                vals = [enc_dt(DT(2020, 1, 1, 12, 0, 0)), enc_dt(DT(1999, 12, 31, 23, 59, 59, tzinfo=datetime.timezone(TD(hours=2))))]
+            elif kind == "cache_control":
+                vals = [{"t": "str", "v": "max-age=5, public" if side == "resp" else "max-age=5, no-cache"}, {"t": "dict", "v": {"max-age": 7}}]
+            else:
+                vals = valid_values(kind, rng, 6, 3)[: ctx.scale(12, 60)]
+            for v in vals:
+                for cfg in (RESP_CFGS if side == "resp" else REQ_CFGS):
+                    inits = ["text/html; x=1"] if kind in ("charset", "ct_params") else [None]
+                    for init in inits:
+                        hows = ["same", "props", "equal"] if kind == "cache_control" else ["same"]
+                        for how in hows:
+                            case = {"o": "self", "side": side, "attr": attr, "value": v, "init": init, "cfg": cfg, "how": how}
+                            report(ctx, o_self(case), case, "shapes")
+                            n += 1
+    ctx.oracle_count("self-assign", n, n)
+    # odd shapes / outside-domain values on every settable attribute
+    n = 0
+    for side in ("resp", "req"):
+        for attr, (key, kind) in sorted(table(side).items()):
+            if (side, attr) in GET_ONLY or attr == "server_port":
+                continue
+            for v in ODD_VALUES:
+                for init in (None, "old"):
+                    if kind in ("charset", "ct_params") and init is None:
+                        continue
+                    case = {"o": "shape", "side": side, "attr": attr, "value": v, "init": "text/html" if kind in ("charset", "ct_params", "content_type", "req_content_type") and init else init,
+                            "cfg": rng.choice(RESP_CFGS if side == "resp" else REQ_CFGS)}
+                    report(ctx, o_shape(case), case, "shapes")
+                    n += 1
+    ctx.oracle_count("odd-shapes", n, n)
+    # the same valid assignments made through constructor keywords
+    n = 0
+    for side in ("resp", "req"):
+        for attr, (key, kind) in sorted(table(side).items()):
+            if (side, attr) in GET_ONLY or kind in ("cache_control", "charset", "ct_params", "if_range") or attr == "server_port":
+                continue
+            if kind in ("date", "date_delta"):
+                vals = [enc_dt(DT(2020, 1, 1, 12, 0, 0)), {"t": "date", "v": [2024, 2, 29]}]
+            else:
+                vals = valid_values(kind, rng, 4, 2)[: ctx.scale(10, 60)]
+            for v in vals:
+                case = {"o": "rt", "side": side, "attr": attr, "value": v, "via": "ctor", "cfg": rng.choice(RESP_CFGS if side == "resp" else REQ_CFGS)}
+                report(ctx, o_rt(case), case, "shapes")
+                n += 1
+    ctx.oracle_count("constructor-keywords", n, n)
+    # the interpreter's int digit limit is a knob too: totality with the limit off and at its minimum
+    for md in (0, 640):
+        batch = []
+        for side, attr in (("resp", "content_length"), ("resp", "age"), ("resp", "content_range"), ("resp", "retry_after"),
+                           ("resp", "cache_control"), ("req", "range"), ("req", "max_forwards"), ("req", "content_length"), ("req", "cache_control")):
+            kind = table(side)[attr][1]
+            for t in ["1" * 639, "1" * 640, "1" * 641, "9" * 4301, "bytes=0-" + "1" * 641, "bytes=" + "1" * 700 + "-", "bytes 0-4/" + "1" * 641,
+                      "bytes */" + "9" * 5000, "max-age=" + "1" * 641, "max-age=" + "1" * 5000, "-" + "1" * 641, " " + "0" * 700]:
+                batch.append({"o": "total", "side": side, "attr": attr, "text": t})
+        res = run_case_sub({"batch": batch, "maxdigits": md})
+        for c, r_ in zip(batch, res if len(res) == len(batch) else [res[0]] * len(batch)):
+            report(ctx, r_, dict(c, maxdigits=md), "shapes")
+        ctx.oracle_count("int-digit-limit-knob", len(batch), len(batch))
+
 # ----------------------------------------------------------------------------------------------
 # dispatch, TZ workers, replay
 # ----------------------------------------------------------------------------------------------
-ORACLES = {"total": o_total, "rt": o_rt, "crlf": o_crlf, "cc": o_cc, "dtext": o_dtext, "hist": o_hist, "perm": o_perm}
+ORACLES = {"total": o_total, "rt": o_rt, "crlf": o_crlf, "cc": o_cc, "dtext": o_dtext, "hist": o_hist, "perm": o_perm, "self": o_self, "shape": o_shape}
 
 
 def run_case(case):
@@ -1416,8 +1663,9 @@ def oracle_sweep(ctx):
                 d = depth - 1
             texts = total_texts(kind, d, rng, nrand)
             n = 0
+            cfgs = RESP_CFGS if side == "resp" else REQ_CFGS
             for t in texts:
-                case = {"o": "total", "side": side, "attr": attr, "text": t}
+                case = {"o": "total", "side": side, "attr": attr, "text": t, "cfg": cfgs[n % len(cfgs)]}
                 report(ctx, o_total(case), case, "total")
                 n += 1
             case = {"o": "total", "side": side, "attr": attr, "text": None}
@@ -1440,7 +1688,8 @@ def oracle_sweep(ctx):
                 elif rng.random() < 0.2:
                     inits = [None, "previous"]
                 for init in inits:
-                    case = {"o": "rt", "side": side, "attr": attr, "value": v, "init": init}
+                    cfgs = RESP_CFGS if side == "resp" else REQ_CFGS
+                    case = {"o": "rt", "side": side, "attr": attr, "value": v, "init": init, "cfg": cfgs[vals.index(v) % len(cfgs)]}
                     report(ctx, o_rt(case), case, "roundtrip")
                     ctx.oracle_count("roundtrip", 1, 1)
                 if side == "resp" and attr in HEADER_GETTER_FAMILY:
@@ -1692,16 +1941,15 @@ def canon(v):
 WATCH = sorted({k for k, _ in REQ.values()})
 
 
-def run_history(side, init, ops):
-    """the real object driven through a history; per step [result, store]"""
-    Request, Response = webob()
+def run_history(side, init, ops, cfg=None):
+    """the real object (of the class / configuration `cfg`) driven through a history; per step [result, store]"""
     out = []
     with NowHook():
         if side == "resp":
-            r = Response()
+            r = new_obj("resp", cfg)
             r.headerlist = [tuple(p) for p in init]
         else:
-            r = Request.blank("/")
+            r = new_obj("req", cfg)
             for k in WATCH:
                 r.environ.pop(k, None)
             for k, v in init:
@@ -1845,7 +2093,7 @@ def corr_group1(ctx):
     rng = ctx.sub_rng("corr1")
     # int() and str()
     texts = [t for t in total_texts("int", 3, rng, ctx.scale(400, 6000)) if latin1(t)]
-    texts = texts[: ctx.scale(1500, 20000)]
+    texts = texts[: ctx.scale(1000, 20000)]
     texts = limit_long([t for t in texts if len(t) < 9000], ctx.scale(4, 8))
     cases = [(cstr(t), bigfix(catch(int, t)), {"fn": "int", "text": t}) for t in texts]
     bad = ctx.corr("py_int", IMPORTS, "(fun s => match py_int s with Some z => vint z | None => VErr ValueError end)", cases,
@@ -1912,7 +2160,7 @@ def corr_group2(ctx):
         texts = [t for t in total_texts(kind, 4, rng, ctx.scale(600, 8000)) if ascii_digits_only(t) and len(t) < 9000]
         rng.shuffle(texts)
         head = [t for t in SPECIAL[kind] if ascii_digits_only(t) and len(t) < 9000]
-        texts = limit_long(head + texts[: ctx.scale(1500, 30000)], ctx.scale(2, 6))
+        texts = limit_long(head + texts[: ctx.scale(1000, 30000)], ctx.scale(2, 6))
         cases = [(cstr(t), groups(rx, t), {"fn": "rx_" + kind, "text": t}) for t in texts]
         bad = ctx.corr("rx_" + kind, IMPORTS, fn, cases, in_type="str")
         for i in bad[:5]:
@@ -2107,6 +2355,8 @@ def ccop(side, o):
         return "(%s %s)" % ("QAssign" if q else "CAssign", cccv(o[1]))
     if t == "del":
         return "QDelete" if q else "CDelete"
+    if t == "assign_self":
+        return "CAssignSelf"
     raise ValueError(o)
 
 
@@ -2167,6 +2417,8 @@ def run_cc_history(side, init, ops):
                 r.cache_control = v
             elif t == "del":
                 del r.cache_control
+            elif t == "assign_self":
+                r.cache_control = r.cache_control
         except Exception as e:  # noqa
             exc = Err(type(e).__name__)
         before = store()
@@ -2185,6 +2437,8 @@ def cc_corr_op(rng, side):
         o = rand_cc_op(rng, side)
         t = o[0]
         if t in ("pdel", "pupdate", "psetdefault", "held_quiet"):
+            continue
+        if t == "assign_self" and (side == "req" or o[1] != "same"):
             continue
         if side == "resp" and t in ("setp_held", "delp_held", "ppop") and t != "ppop":
             continue
@@ -2248,9 +2502,8 @@ def corr_group4(ctx):
 
 
 # ---- credentials and Content-Type
-def run_ct_history(init, ops):
-    Request, Response = webob()
-    r = Response()
+def run_ct_history(init, ops, cfg=None):
+    r = new_obj("resp", cfg)
     r.headerlist = [tuple(p) for p in init]
     out = []
     for o in ops:
@@ -2294,7 +2547,7 @@ def corr_group5(ctx):
     # _rx_auth_param.findall / parse_auth
     texts = [t for t in total_texts("auth", 4, rng, ctx.scale(800, 10000)) if latin1(t) and len(t) < 2000]
     rng.shuffle(texts)
-    texts = [t for t in SPECIAL["auth"] if latin1(t)] + texts[: ctx.scale(1500, 30000)]
+    texts = [t for t in SPECIAL["auth"] if latin1(t)] + texts[: ctx.scale(1000, 30000)]
     cases = [(cstr(t), [list(m) for m in descriptors._rx_auth_param.findall(t)], {"fn": "_rx_auth_param.findall", "text": t}) for t in texts]
     bad = ctx.corr("auth_params", IMPORTS, "(fun s => dict_val (auth_params (S (@List.length N s)) s))", cases, in_type="str")
     for i in bad[:5]:
@@ -2306,7 +2559,7 @@ def corr_group5(ctx):
     # CHARSET_RE.search and _PARAM_RE.finditer
     texts = [t for t in total_texts("content_type", 4, rng, ctx.scale(800, 10000)) if latin1(t) and len(t) < 2000]
     rng.shuffle(texts)
-    texts = [t for t in SPECIAL["content_type"] if latin1(t)] + texts[: ctx.scale(1500, 30000)]
+    texts = [t for t in SPECIAL["content_type"] if latin1(t)] + texts[: ctx.scale(1000, 30000)]
 
     def cs(t):
         m = descriptors.CHARSET_RE.search(t)
@@ -2375,10 +2628,13 @@ def corr_group5(ctx):
                 ops.append(["raw", rng.choice(["Content-Type", "content-type"]), rng.choice(cts)])
             else:
                 ops.append(["rawdel"])
-        out = run_ct_history(init, ops)
-        cases.append((cpair(clist(cpair(cstr(k), cstr(v)) for k, v in init) if init else "(@nil (str * str))",
-                            clist(ctop(o) for o in ops)), out, {"side": "resp", "init": init, "ops": ops}))
-    bad = ctx.corr("resp-content-type", IMPORTS, "(fun c => run_ct (fst c) (snd c))", cases, in_type="(pairs * list ctop)")
+        cfg = rng.choice(RESP_CFGS)
+        out = run_ct_history(init, ops, cfg)
+        cases.append(("(%s, %s, %s)" % (cstr(default_charset_of(cfg)),
+                                        clist(cpair(cstr(k), cstr(v)) for k, v in init) if init else "(@nil (str * str))",
+                                        clist(ctop(o) for o in ops)), out, {"side": "resp", "init": init, "ops": ops, "cfg": cfg}))
+    bad = ctx.corr("resp-content-type", IMPORTS, "(fun c => match c with (d, i, o) => run_ct d i o end)", cases,
+                   in_type="(str * pairs * list ctop)")
     for i in bad[:5]:
         checks = []
         for o in cases[i][2]["ops"]:
@@ -2420,7 +2676,7 @@ def corr_mix(ctx):
               "last_modified", "retry_after", "www_authenticate"]
     qattrs = ["max_forwards", "content_length", "server_port", "pragma", "referer", "user_agent", "range", "date",
               "if_modified_since", "if_unmodified_since", "authorization"]
-    n = ctx.scale(250, 3000)
+    n = ctx.scale(150, 3000)
     cases = []
     for _ in range(n):
         _, ops = gen_history(rng, "resp", rattrs, ctx.scale(14, 30))
@@ -2429,9 +2685,11 @@ def corr_mix(ctx):
             a = rng.choice(rattrs)
             key, kind = RESP[a]
             init.append((case_variants(rng, key), rng.choice(GEN_TEXTS[kind])))
-        out = run_history("resp", init, ops)
+        cfg = rng.choice(RESP_CFGS)
+        out = run_history("resp", init, ops, cfg)
         cases.append((cpair(clist(cpair(cstr(k), cstr(v)) for k, v in init) if init else "(@nil (str * str))",
-                            clist(cop("R", o) for o in ops)), out, {"o": "hist", "side": "resp", "init": [list(p) for p in init], "ops": ops}))
+                            clist(cop("R", o) for o in ops)), out,
+                      {"o": "hist", "side": "resp", "init": [list(p) for p in init], "ops": ops, "cfg": cfg}))
     bad = ctx.corr("resp-attrs-mix", IMPORTS, "(fun c => run_resp %s (fst c) (snd c))" % ccfg(), cases, in_type="(pairs * list (hop rattr))")
     for i in bad[:5]:
         disagreement(ctx, "resp-attrs-mix", cases[i][2], [cases[i][2]] + derived_checks("resp", cases[i][2]["ops"]))
@@ -2444,10 +2702,11 @@ def corr_mix(ctx):
             a = rng.choice(qattrs)
             key, kind = REQ[a]
             init = [kv for kv in init if kv[0] != key] + [(key, rng.choice(GEN_TEXTS[kind]))]
-        out = run_history("req", init, ops)
+        cfg = rng.choice(REQ_CFGS)
+        out = run_history("req", init, ops, cfg)
         st = [dict(init).get(k, ABSENT) for k in WATCH]
         cases.append((cpair(clist(cpair(cstr(k), cstr(v)) for k, v in init), clist(cop("Q", o) for o in ops)), out,
-                      {"o": "hist", "side": "req", "init": st, "ops": ops}))
+                      {"o": "hist", "side": "req", "init": st, "ops": ops, "cfg": cfg}))
     bad = ctx.corr("req-attrs-mix", IMPORTS, "(fun c => run_req %s %s (fst c) (snd c))" % (ccfg(), watch), cases,
                    in_type="(pairs * list (hop qattr))")
     for i in bad[:5]:
@@ -2510,7 +2769,7 @@ def run(ctx):
     prepare_generators(ctx)
     # the correspondences spend their time in coqc subprocesses, the oracle in this process: run them side by side
     # (every part draws from its own ctx.sub_rng stream, so the cases do not depend on the scheduling)
-    parts = [corr_group1, corr_group2, corr_group3, corr_group4, corr_group5, oracle_sweep, stateful_sweep]
+    parts = [corr_group1, corr_group2, corr_group3, corr_group4, corr_group5, oracle_sweep, stateful_sweep, shapes_sweep]
     with cf.ThreadPoolExecutor(len(parts)) as ex:
         futs = [(f.__name__, ex.submit(f, ctx)) for f in parts]
         for name, fu in futs:
@@ -2543,7 +2802,10 @@ def replay(ctx, path):
     if not isinstance(case, dict) or "o" not in case:
         print("replay: nothing executable in this file (broken obligation): %s" % data.get("what"))
         return 1
-    res = run_case_tz(case) if case.get("tz") else run_case(case)
+    if case.get("maxdigits") is not None:
+        res = run_case_sub(case)[0]
+    else:
+        res = run_case_tz(case) if case.get("tz") else run_case(case)
     if res:
         print("VIOLATION property=C12 replay=%s" % path)
         print("  (%s) %s" % (res[0], res[1]))
